@@ -218,3 +218,49 @@ func init() {
 		}
 	}
 }
+
+// C04, key identity on several columns. The model pairs key groups whose texts are equal column by column
+// (KeyTexts(row, cols) is a tuple); the engine glues the columns of a key into one text. This driver joins a table of
+// tuples with itself on two string columns, the tuples drawn from a pool chosen so that different tuples read the same
+// when their parts are written one after the other - with or without separators, with or without length prefixes:
+// every row must meet exactly itself (HashCore in closed form again), under the hash and the nested-loop strategies.
+func init() {
+	Drivers["C04:keytext"] = func(emit func(Verdict)) {
+		pool := []string{"", "0", "1", "10", "a", "ab", "b", "-", "a-", "-b", ":", "1:", "1:a-", "0:-", "x", "1x", "a b", " ", "b c",
+			"aaaaaaaa1x", "10aaaaaaaa", "1010", "01", "2:ab-", "ab-1:", "%", "1:a-1:b-", "a-1:b", "11", "111"}
+		rows := []any{}
+		for _, p := range pool {
+			for _, q := range pool {
+				rows = append(rows, map[string]any{"p": p, "q": q})
+			}
+		}
+		for _, ty := range []string{"JOIN", "HASH_JOIN", "LEFT JOIN", "PARALLEL HASH_JOIN", "STRAIGHT_JOIN"} {
+			for _, on := range []string{"x.p = y.p AND x.q = y.q", "y.q = x.q AND y.p = x.p"} {
+				sql := "SELECT x.p AS p, x.q AS q, y.p AS p2, y.q AS q2 FROM l x " + ty + " r y ON " + on
+				sig := []string{"keytext", "join:" + ty}
+				v := Verdict{OK: true, SQL: sql, Sig: sig, Execs: 1, Nontrivial: true}
+				out := Run(map[string]any{"l": DeepCopy(any(rows)), "r": DeepCopy(any(rows))}, sql, false)
+				if out.Panic != nil || out.Err != nil {
+					v = fail("result", sql, sig, "%d tuples a side: %s", len(rows), out.Describe())
+				} else {
+					bad := ""
+					for _, r := range out.Rows {
+						row, _ := r.(map[string]any)
+						if row["p"] != row["p2"] || row["q"] != row["q2"] {
+							bad = fmt.Sprintf("the tuples (%q, %q) and (%q, %q) were joined", row["p"], row["q"], row["p2"], row["q2"])
+							break
+						}
+					}
+					if bad == "" && len(out.Rows) != len(rows) {
+						bad = fmt.Sprintf("%d rows, the model has %d (every tuple meets exactly itself)", len(out.Rows), len(rows))
+					}
+					if bad != "" {
+						v = fail("result", sql, sig, "%d pairwise distinct two-column keys: %s", len(rows), bad)
+					}
+				}
+				v.Key, v.Case = ty+"/"+on, Node{"sql": sql}
+				emit(v)
+			}
+		}
+	}
+}
